@@ -43,9 +43,9 @@ CASE_TIMEOUT = 1500
 CHUNK = 1
 FLOORS = {
     "quick": {"distinct_nontrivial": 12,
-              "mon": {"wallPressure_calls": 150, "solveWall": 40, "probe_evaluations": 16,
+              "mon": {"wallPressure_calls": 150, "solveWall": 40, "probe_evaluations": 8,
                       "history_repeats": 12},
-              "cls": {"finite-velocity": 8}},
+              "cls": {"finite-velocity": 6}},
     "thorough": {"distinct_nontrivial": 150,
                  "mon": {"wallPressure_calls": 2500, "solveWall": 500,
                          "probe_evaluations": 250, "history_repeats": 150},
@@ -60,7 +60,7 @@ def worker_init():
 # ------------------------------------------------------------------------- generation
 def generate(tier, seed):
     rng = np.random.default_rng(100 + seed)
-    n = 26 if tier == "quick" else 300
+    n = 30 if tier == "quick" else 300
     cases = []
     for i in range(n):
         r = rng.random()
@@ -139,10 +139,14 @@ def p_trace(manager, pot):
     for name, fe in (("high", th.freeEnergyHigh), ("low", th.freeEnergyLow)):
         Ts = np.asarray(fe._interpolationPoints, dtype=float)
         vals = np.asarray(fe._interpolationValues, dtype=float)
-        lo, hi = pot.exists(name)
+        # soft ends (the continuous family of minima passes to another closed-form
+        # branch, e.g. phi=0 -> phi_- at T0 in poly1) are admissible continuations
+        ex = getattr(pot, "exists_soft", pot.exists)
+        vp = getattr(pot, "V_phase_soft", pot.V_phase)
+        lo, hi = ex(name)
         if Ts.min() < lo * (1 - 1e-5) or Ts.max() > hi * (1 + 1e-5):
             return False, f"{name} table leaves the existence interval"
-        Vex = pot.V_phase(name, Ts)
+        Vex = vp(name, Ts)
         scale = np.abs(Vex) + 1e-300
         if np.max(np.abs(vals[:, -1] - Vex) / scale) > 1e-5:
             return False, f"{name} table off its branch"
@@ -208,7 +212,8 @@ def run_case(case):
         if cfg["offEq"]:
             coll = MG.collisions_dir([p["name"] for p in spec["particles"]], cfg["N"],
                                      kappa=cfg["kappa"])
-            manager.setPathToCollisionData(coll)
+            import pathlib
+            manager.setPathToCollisionData(pathlib.Path(coll))
         settings = MG.wall_settings(cfg)
         hyd = manager.hydrodynamics
         tr.install()
